@@ -191,6 +191,9 @@ type model struct {
 	root    *mBody
 	removed []region
 	newN    int
+
+	lastRemoved   string
+	lastRemovedIn *mBody
 }
 
 func tokIndexAt(toks []tk, off int) int {
@@ -372,6 +375,15 @@ func (md *model) apply(e *Edit, wroot *hclwrite.Body, ap *applied) {
 	}
 	pickName := func() (string, *mItem) {
 		as := mb.attrs()
+		if e.Name == 4 && md.lastRemoved != "" && md.lastRemovedIn == mb {
+			// set again the attribute that was removed last
+			for _, it := range as {
+				if it.a.name == md.lastRemoved {
+					return it.a.name, it
+				}
+			}
+			return md.lastRemoved, nil
+		}
 		if e.Name < 0 || len(as) == 0 {
 			md.newN++
 			return fmt.Sprintf("new_attr_%d", md.newN), nil
@@ -428,6 +440,7 @@ func (md *model) apply(e *Edit, wroot *hclwrite.Body, ap *applied) {
 		}
 		it := as[e.Name%len(as)]
 		wb.RemoveAttribute(it.a.name)
+		md.lastRemoved, md.lastRemovedIn = it.a.name, mb
 		if it.braceLine {
 			ap.braceLine = true
 		}
